@@ -1,7 +1,7 @@
 (* Case operations of the correspondence protocol (harness/PROTOCOL.md), interpreted on the
    model.  Everything the OCaml runner executes goes through [run_op]. *)
 From Coq Require Import Bool ZArith Lia List FMapPositive.
-From K Require Import Model.Machine Model.Bus Model.Cost Model.Addressing.
+From K Require Import Model.Machine Model.Bus Model.Cost Model.Addressing Model.Alu Model.Exec Model.Periph.
 Import ListNotations.
 Open Scope bool_scope. Open Scope Z_scope.
 
@@ -10,14 +10,27 @@ Inductive op :=
 | OPricePc (kind n : Z)           (* calc_state *)
 | OW8 (addr v : Z) | OR8 (addr : Z)
 | OPort (p v : Z)
+| OStep | OStepN (n : Z) | OIrq (v : Z) | OBnd | OInt (v : Z) | OTick (n : Z)
 | OWr (sz addr v : Z) | ORd (sz addr : Z).   (* 16/32-bit big-endian access through the CPU helpers *)
 
 Inductive res := ROk | ROkV (v : Z) | RErr | RPanic.
 
 Definition of_opt (o : option Z) : res := match o with Some v => ROkV v | None => RErr end.
 
+Definition of_m {A} (m : M A) (f : A -> res) (s : cpu) : res * cpu :=
+  match m s with Ok a s' => (f a, s') | Err => (RErr, s) | Panic => (RPanic, s) end.
+
+Fixpoint stepn (n : nat) (acc : Z) : M Z :=
+  match n with O => ret acc | S k => st <- step ;; stepn k (acc + st) end.
+
 Definition run_op (o : op) (s : cpu) : res * cpu :=
   match o with
+  | OStep => of_m step ROkV s
+  | OStepN n => of_m (stepn (Z.to_nat n) 0) ROkV s
+  | OIrq v => (ROk, request_interrupt v s)
+  | OBnd => of_m try_interrupt (fun _ => ROk) s
+  | OInt v => of_m (interrupt v) (fun _ => ROk) s
+  | OTick n => (ROk, update_timer n s)
   | OPrice k n a => (of_opt (calc_state_with_addr (cbus s) k n a), s)
   | OPricePc k n => (of_opt (calc_state (cbus s) (opc s) k n), s)
   | OW8 a v => match bus_write (cbus s) a v with Some b => (ROk, set_bus b s) | None => (RErr, s) end
